@@ -14,7 +14,7 @@ ID = "C18"
 LEVEL = "exploration"
 BUDGET = {"quick": 55, "thorough": 900}
 QUICK_CASES = 1600
-FLOOR = {"quick": 500, "thorough": 5000}
+FLOOR = {"quick": 500, "thorough": 500}  # conclusive cases below which a run is inconclusive (the thorough tier is time-budgeted: same floor)
 TIMEOUT = 120
 REQUIRED_OBS = ["programs", "faults_injected", "error_reports_checked", "script_frames_compared", "chained_blocks_compared", "later_occurrences_served", "bystander_runs_checked", "load_time_faults", "expression_faults", "entry_kinds_seen", "exception_kinds_seen", "site_kinds_seen", "link_kinds_seen"]
 RULE = (
